@@ -376,16 +376,16 @@ class Path:
         self.nodes += 1
         return "%s%d" % (self.scope, self.nodes)
 
-    def sub(self, stmts, label, havoc, inherit=True, nid=None):
+    def sub(self, stmts, label, havoc, inherit=True, nid=None, dead=()):
         """path set of a nested body; loop-carried / assigned variables start as fresh symbols"""
         nid = nid or self.new_nid()
-        entry = tuple((v, canon(self.read(v)) if v in self.env else "-") for v in havoc)
+        entry = tuple((v, canon(self.read(v)) if v in self.env else "-") for v in havoc if v not in dead)
         base_env = dict(self.env)
         ids = dict(self.objid)
         for v in havoc:
             base_env[v] = (self.atom("lc(%s)#%s" % (v, nid)), self.epoch)
             ids[v] = "lc:%s#%s" % (v, nid)
-        paths = explore(stmts, base_env, nid + ".", self.decided if inherit else None, self.epoch, ids)
+        paths = explore(stmts, base_env, nid + ".", self.decided if inherit else None, self.epoch, ids, dead=dead)
         return (label, nid, entry, paths)
 
     def after(self, node, names):
@@ -472,18 +472,19 @@ class Path:
             return
         if isinstance(s, (ast.For, ast.While)):
             names = self.assigned([s])
+            dead = dead_after_iteration(s, names)
             if isinstance(s, ast.For):
                 it = self.text(s.iter)
                 nid = self.new_nid()
                 # the element of this loop's iterable: a symbol of its own for every loop node
                 pre = [ast.Assign(targets=[s.target], value=ast.Name(id="__item__%s" % nid.replace(".", "_"), ctx=ast.Load()))]
                 ast.fix_missing_locations(ast.Module(body=pre, type_ignores=[]))
-                node = self.sub(pre + s.body, "for", names, inherit=False, nid=nid)
+                node = self.sub(pre + s.body, "for", names, inherit=False, nid=nid, dead=dead)
                 node = node + (it,)
             else:
                 guard = [ast.If(test=ast.UnaryOp(op=ast.Not(), operand=s.test), body=[ast.Break()], orelse=[])]
                 ast.fix_missing_locations(ast.Module(body=guard, type_ignores=[]))
-                node = self.sub(guard + s.body, "while", names, inherit=False)
+                node = self.sub(guard + s.body, "while", names, inherit=False, dead=dead)
             els = self.sub(s.orelse, "loop-else", self.assigned(s.orelse)) if s.orelse else None
             self.effect("loop", node, els)
             self.after(node, names)
@@ -531,7 +532,72 @@ def _stringy(e):
     return False
 
 
-def explore(stmts, env, scope, inherited=None, epoch0=0, objid=None):
+_CUR_FUNC = [None]
+
+
+def _mentions(node, v):
+    return any(isinstance(n, ast.Name) and n.id == v for n in ast.walk(node))
+
+
+def _def_before_use(block, v):
+    """in every execution of `block`, no read of v sees a value from before the block: the first statement that mentions v is an
+    unconditional plain assignment that does not read v; or ALL mentions of v sit in one compound statement whose header does not
+    mention v and whose sub-blocks each satisfy the same condition"""
+    ms = [st for st in block if _mentions(st, v)]
+    if not ms:
+        return True
+    st = ms[0]
+    if isinstance(st, ast.Assign) and len(st.targets) == 1 and \
+            ((isinstance(st.targets[0], ast.Name) and st.targets[0].id == v) or
+             (isinstance(st.targets[0], ast.Tuple) and all(isinstance(e, ast.Name) for e in st.targets[0].elts) and
+              any(e.id == v for e in st.targets[0].elts))) and not _mentions(st.value, v):
+        return True
+    if len(ms) == 1 and isinstance(st, (ast.If, ast.For, ast.While, ast.With, ast.Try)):
+        heads = []
+        if isinstance(st, (ast.If, ast.While)):
+            heads.append(st.test)
+        elif isinstance(st, ast.For):
+            heads += [st.iter, st.target]
+        elif isinstance(st, ast.With):
+            heads += [i.context_expr for i in st.items] + [i.optional_vars for i in st.items if i.optional_vars is not None]
+        if any(_mentions(h, v) for h in heads):
+            return False
+        subs = [getattr(st, f) for f in ("body", "orelse", "finalbody") if getattr(st, f, None)]
+        subs += [h.body for h in getattr(st, "handlers", []) or []]
+        return all(_def_before_use(b, v) for b in subs)
+    return False
+
+
+def dead_after_iteration(loop, names):
+    """names assigned in the loop whose value at the end of an iteration nobody can observe: not read anywhere outside the loop statement
+    (nor by any nested scope), and in every iteration written - by an unconditional plain assignment at the top level of the body that
+    does not read the name itself - before the body mentions the name in any other way"""
+    func = _CUR_FUNC[0]
+    if func is None:
+        return set()
+    inside = {id(n) for n in ast.walk(loop)}
+    out = set()
+    nested = set()
+    for n in ast.walk(func):
+        if isinstance(n, (ast.FunctionDef, ast.AsyncFunctionDef, ast.Lambda, ast.ClassDef, ast.ListComp, ast.SetComp, ast.DictComp, ast.GeneratorExp)) and n is not func:
+            nested |= {x.id for x in ast.walk(n) if isinstance(x, ast.Name)}
+    tnames = {x.id for x in ast.walk(loop.target) if isinstance(x, ast.Name)} if isinstance(loop, ast.For) else set()
+    for v in names:
+        if v in nested or v in tnames:
+            continue
+        if any(isinstance(n, ast.Name) and n.id == v and id(n) not in inside and isinstance(n.ctx, (ast.Load, ast.Del)) for n in ast.walk(func)):
+            continue
+        if any(isinstance(n, ast.Name) and n.id == v for part in ([loop.iter] if isinstance(loop, ast.For) else [loop.test]) for n in ast.walk(part)):
+            continue
+        if any(isinstance(n, ast.Name) and n.id == v for st in loop.orelse for n in ast.walk(st)):
+            continue
+        ok = _def_before_use(loop.body, v)
+        if ok:
+            out.add(v)
+    return out
+
+
+def explore(stmts, env, scope, inherited=None, epoch0=0, objid=None, dead=()):
     """all paths of a statement list -> sorted tuple of (decisions, trace, outcome, final bindings of assigned names)"""
     results = []
     work = [[]]
@@ -562,7 +628,7 @@ def explore(stmts, env, scope, inherited=None, epoch0=0, objid=None):
                 if isinstance(n, ast.Name) and isinstance(n.ctx, ast.Store) and n.id not in names:
                     names.append(n.id)
         for v in sorted(names):
-            if v in p.env:
+            if v in p.env and v not in dead:
                 finals.append((v, canon(p.env[v][0])))
         results.append((own, tuple(p.trace), p.done, tuple(finals)))
         if len(results) > MAX_PATHS:
@@ -573,9 +639,59 @@ def explore(stmts, env, scope, inherited=None, epoch0=0, objid=None):
 def summary(func):
     """canonical summary of a FunctionDef (after canonicalisation); raises TooManyPaths"""
     body = [s for s in func.body if not (isinstance(s, ast.Expr) and isinstance(s.value, ast.Constant))]
-    paths = explore(body, {}, "n")
+    _CUR_FUNC[0] = func
+    try:
+        paths = explore(body, {}, "n")
+    finally:
+        _CUR_FUNC[0] = None
     # the final bindings of locals are irrelevant at function level: keep decisions, trace, outcome
-    return tuple((d, t, o) for d, t, o, _ in paths)
+    return _drop_unobserved_ids(tuple((d, t, _observable_identity(t, o)) for d, t, o, _ in paths))
+
+
+_ID_TOKEN = None
+
+
+def _drop_unobserved_ids(summ):
+    """identity tags of fresh local objects (`name#k`, `scope.name#k`) that occur exactly once in the whole summary identify an object
+    nothing else ever refers to - it was created, named and handed over at that one place (`t = (a, b); xs.append(t)` vs
+    `xs.append((a, b))`): the tag carries no information and is dropped"""
+    import re
+    global _ID_TOKEN
+    if _ID_TOKEN is None:
+        _ID_TOKEN = re.compile(r"(?<![\w#.:])((?:[A-Za-z_][\w]*\.)*(?:[A-Za-z_]\w*\.)?[A-Za-z_]\w*#\d+)(?![\w(])")
+    blob = repr(summ)
+    counts = {}
+    for m in _ID_TOKEN.finditer(blob):
+        counts[m.group(1)] = counts.get(m.group(1), 0) + 1
+    full = re.compile(r"^(?:[\w]+\.)*\w+#\d+$")
+
+    idlike = re.compile(r"^(?:(?:[\w]+\.)*\w+#\d+|(?:in|lc|after):.*|expr)$")
+
+    def walk(x):
+        if isinstance(x, tuple):
+            pure_ids = bool(x) and all(isinstance(e, str) and idlike.match(e) for e in x)
+            out = []
+            for e in x:
+                if isinstance(e, str) and full.match(e) and counts.get(e, 0) <= 1:
+                    if not pure_ids:
+                        out.append("#fresh")      # position kept inside an effect record
+                    continue                      # dropped from a list of identity tags
+                out.append(walk(e))
+            return tuple(out)
+        return x
+    return walk(summ)
+
+
+def _observable_identity(trace, outcome):
+    """The identity tags of a returned local matter only when the object is observable beyond its value: a parameter / global object
+    (`in:..`), or a local object that some effect of the path mentions (it was mutated, stored somewhere, passed to a call).  A fresh
+    value that is merely given a name and returned (`y = f(..); return y` vs `return f(..)`) has no observable identity."""
+    if not (isinstance(outcome, tuple) and len(outcome) == 3 and outcome[0] == "return" and outcome[2]):
+        return outcome
+    import re
+    blob = repr(trace)
+    keep = tuple(i for i in outcome[2] if i.startswith("in:") or re.search(r"(?<![\w#.])%s(?!\w)" % re.escape(i), blob))
+    return (outcome[0], outcome[1], keep)
 
 
 def signature(func):
